@@ -22,19 +22,26 @@ import (
 type concScen struct {
 	Rules   []RuleSpec `json:"rules"`
 	Callers [][]uint32 `json:"callers"` // batch counts per caller
-	rules   []*flow.Rule
-	geoms   []winGeom
-	chain   *base.SlotChain
-	hooks   chainx.Hooks
-	adm     []admit // recorded admissions (updated in the statistic phase)
-	reqs    []*creq
-	curOf   map[int]*creq
+	// Fine: every shimmed atomic / lock operation is a scheduling point (preemption bounded) instead
+	// of the two phase boundaries; Pre tokens are admitted sequentially before the callers start
+	Fine  bool   `json:"fine,omitempty"`
+	Pre   uint32 `json:"pre,omitempty"`
+	Bound int    `json:"bound,omitempty"`
+	done  int64  // tokens whose statistic phase is complete
+	rules []*flow.Rule
+	geoms []winGeom
+	chain *base.SlotChain
+	hooks chainx.Hooks
+	adm   []admit // recorded admissions (updated in the statistic phase)
+	reqs  []*creq
+	curOf map[int]*creq
 }
 
 type creq struct {
 	caller, idx int
 	batch       uint32
 	snap        []int64 // window sums per rule at its own check
+	lo, hi      int64   // fine mode: tokens certainly recorded when its check began / possibly recorded when it ended
 	checked     bool
 	passed      bool
 	done        bool
@@ -68,6 +75,7 @@ func (s *concScen) setup() {
 		BeforeChecks: func(ctx *base.EntryContext) {
 			r := cur[vsched.Cur()]
 			r.checked = true
+			r.lo = s.done
 			r.snap = make([]int64, len(s.rules))
 			for i := range s.rules {
 				for _, a := range s.adm {
@@ -78,8 +86,24 @@ func (s *concScen) setup() {
 		Passed: func(ctx *base.EntryContext) {
 			r := cur[vsched.Cur()]
 			s.adm = append(s.adm, admit{concT0, "a", int64(r.batch)})
+			if !r.checked || r.hi == 0 {
+				r.hi = s.begun()
+			}
+		},
+		Blocked: func(ctx *base.EntryContext, _ *base.BlockError) {
+			r := cur[vsched.Cur()]
+			r.hi = s.begun()
+		},
+		AfterChecks: func(ctx *base.EntryContext) {
+			r := cur[vsched.Cur()]
+			r.hi = s.begun()
+		},
+		Recorded: func(ctx *base.EntryContext) {
+			r := cur[vsched.Cur()]
+			s.done += int64(r.batch)
 		},
 	}
+	s.done = 0
 	s.chain = chainx.NewPhaseChain(&s.hooks)
 	for ci, bs := range s.Callers {
 		for j, b := range bs {
@@ -88,6 +112,25 @@ func (s *concScen) setup() {
 	}
 	_ = cur
 	s.curOf = cur
+	if s.Pre > 0 {
+		pre := &creq{batch: s.Pre}
+		cur[vsched.Cur()] = pre
+		e, blk := sentinel.Entry("a", sentinel.WithBatchCount(s.Pre), sentinel.WithSlotChain(s.chain))
+		if blk != nil {
+			panic("harness: the sequential prefix was blocked")
+		}
+		e.Exit()
+		delete(cur, vsched.Cur())
+	}
+}
+
+// begun: tokens of every request whose statistic phase has begun
+func (s *concScen) begun() int64 {
+	var n int64
+	for _, a := range s.adm {
+		n += a.tok
+	}
+	return n
 }
 
 func (s *concScen) threads() []func() {
@@ -128,6 +171,24 @@ func (s *concScen) check(x *vsched.Exec) (string, string) {
 		if !r.done || !r.checked {
 			return "UNFINISHED", "a request did not finish"
 		}
+		if s.Fine {
+			// a caller's check overlaps other callers' recording: it must be consistent with SOME
+			// count between what was certainly recorded when it began and what may have been when it ended
+			T := s.Rules[0].T
+			if r.passed {
+				out += "P"
+				total += int64(r.batch)
+				if float64(r.lo)+float64(r.batch) > T {
+					return out, fmt.Sprintf("caller %d (batch %d) admitted although %d tokens were completely recorded before its check began (T=%v): decided on a count nobody recorded", r.caller, r.batch, r.lo, T)
+				}
+			} else {
+				out += "B"
+				if float64(r.hi)+float64(r.batch) <= T {
+					return out, fmt.Sprintf("caller %d (batch %d) rejected although at most %d tokens were recorded or being recorded when its check ended (T=%v)", r.caller, r.batch, r.hi, T)
+				}
+			}
+			continue
+		}
 		want := -1
 		for i := range s.rules {
 			if float64(r.snap[i])+float64(r.batch) > s.Rules[i].T {
@@ -161,6 +222,9 @@ func (s *concScen) check(x *vsched.Exec) (string, string) {
 }
 
 func (s *concScen) scenario() *sched.Scenario {
+	if s.Fine {
+		return &sched.Scenario{Name: s.name(), Setup: s.setup, Threads: s.threads, Check: s.check, MaxSteps: 200000}
+	}
 	return &sched.Scenario{Name: s.name(), Setup: s.setup, Threads: s.threads, Check: s.check, Filter: chainx.OnlyUser, MaxSteps: 100000}
 }
 
@@ -179,6 +243,15 @@ func concScenarios(quick bool) []*concScen {
 			out = append(out, &concScen{Rules: rs, Callers: cs})
 		}
 	}
+	// atomic-access granularity, preemption bounded: callers with DIFFERENT batches around the threshold
+	fb := 1
+	if !quick {
+		fb = 2
+	}
+	for _, rs := range [][]RuleSpec{{{5, 0, false}}, {{5, 15, false}}} {
+		out = append(out, &concScen{Rules: rs, Callers: [][]uint32{{5}, {1}}, Pre: 3, Fine: true, Bound: fb},
+			&concScen{Rules: rs, Callers: [][]uint32{{2}, {1}}, Pre: 3, Fine: true, Bound: fb})
+	}
 	return out
 }
 
@@ -195,7 +268,11 @@ func runConc(c *props.Ctx) {
 		if !c.Mine(i) {
 			continue
 		}
-		res := sched.Explore(s.scenario(), sched.Options{Bound: 1 << 30, Deadline: c.Deadline, MaxExecs: 2000000})
+		bound := 1 << 30
+		if s.Fine {
+			bound = s.Bound
+		}
+		res := sched.Explore(s.scenario(), sched.Options{Bound: bound, Deadline: c.Deadline, MaxExecs: 2000000})
 		c.R.Evaluations += int64(res.Execs)
 		c.R.Traces += int64(res.Execs)
 		c.R.Transitions += res.Steps
